@@ -308,16 +308,25 @@ class MeshTag(Op):
         m = S.pick(rng, "mesh")
         if m is None:
             return None
-        what = rng.choice(["b", "s", "b-idx", "s-idx", "defaults"])
+        what = rng.choice(["b", "s", "b-idx", "s-idx", "defaults", "b-ori",
+                           "b-ori"])
         name = rng.choice(["left", "gamma", "gam", "om", "omega", "x", "top"])
         spec = {"kind": rng.choice(["lt", "gt", "band", "all"]),
                 "axis": rng.randrange(3), "c": rng.choice([0.25, 0.5, 0.6]),
                 "w": 0.3}
         if rng.random() < 0.06:
             spec = {"kind": "raise"}
+        interior = False
+        if what == "b-ori":
+            # names of oriented sets start with "o"; most of them keep
+            # interior facets only, so that both sides exist
+            name = "o" + name
+            interior = rng.random() < 0.7
         return {"mesh": ref(m), "what": what, "name": name, "spec": spec,
+                "interior": interior,
                 "sub": gen_subset(rng),
-                "only_boundary": rng.random() < 0.5}
+                "only_boundary": rng.random() < 0.5,
+                "ori_how": rng.choice(["around", "around-flip", "normal"])}
 
     def meta(self, a, S):
         src = a["mesh"]["ref"]
@@ -343,6 +352,25 @@ class MeshTag(Op):
         if w == "b-idx":
             return m.with_boundaries(
                 {a["name"]: np.sort(resolve_subset(m.nfacets, a["sub"]))})
+        if w == "b-ori":
+            # an oriented facet set obtained from the library's own selectors
+            how = a.get("ori_how", "around")
+            if how == "normal":
+                spec = a["spec"] if a["spec"]["kind"] != "raise" \
+                    else {"kind": "band", "axis": 0, "c": 0.5, "w": 0.3}
+                nrm = np.zeros(m.p.shape[0])
+                nrm[spec.get("axis", 0) % m.p.shape[0]] = 1.0
+                ob = m.facets_satisfying(R.predicate(spec),
+                                         boundaries_only=False, normal=nrm)
+            else:
+                el = np.sort(resolve_subset(m.nelements, a["sub"]))
+                ob = m.facets_around(el, flip=(how == "around-flip"))
+            if a.get("interior"):
+                from skfem.generic_utils import OrientedBoundary
+                keep = m.f2t[1, np.asarray(ob)] >= 0
+                ob = OrientedBoundary(np.asarray(ob)[keep],
+                                      np.asarray(ob.ori)[keep])
+            return m.with_boundaries({a["name"]: ob})
         return m.with_subdomains(
             {a["name"]: np.sort(resolve_subset(m.nelements, a["sub"]))})
 
@@ -670,6 +698,16 @@ class MkBasis(Op):
                            "ifacet0", "ifacet1", "facet-subset"])
         if cell == "line" and kind != "cell" and kind != "cell-subset":
             kind = "cell"
+        bnames = S.slots[m]["b"]
+        named = None
+        if cell != "line" and bnames and rng.random() < 0.3:
+            kind = "facet-named"
+            onames = [n for n in bnames if n.startswith("o")]
+            if onames and rng.random() < 0.7:
+                bnames = onames
+            named = {"name": rng.choice(bnames),
+                     "side": rng.choice([0, 0, 1, 1]),
+                     "by": rng.choice(["name", "object"])}
         g = None
         if rng.random() < 0.3:
             g = S.pick(rng, "mapping", lambda x: x["mesh"] == m)
@@ -681,6 +719,18 @@ class MkBasis(Op):
              "sub": gen_subset(rng)}
         if g is not None:
             a["map"] = ref(g)
+        if named is not None:
+            a["named"] = named
+        if kind in ("cell", "cell-subset") and ekind != "global" \
+                and rng.random() < 0.15:
+            # the caller's own (X, W) tuple, taken from an earlier basis on a
+            # mesh of the same cell kind and handed on through quadrature=
+            q = S.pick(rng, "basis", lambda x: x["cell"] == cell
+                       and x["kind"] in ("cell", "cell-subset")
+                       and not x.get("composite"))
+            if q is not None:
+                a["quad_from"] = ref(q)
+                a["intorder"] = S.slots[q]["io"]
         d = S.pick(rng, "dofs", lambda x: x["elem"] == e
                    and x.get("topo") == S.slots[m].get("topo"))
         if d is not None and rng.random() < 0.6:
@@ -721,6 +771,18 @@ class MkBasis(Op):
             kw["dofs"] = W[a["dofs_obj"]["ref"]]
         elif "dofs_from" in a:
             kw["dofs"] = W[a["dofs_from"]["ref"]].dofs
+        if "quad_from" in a:
+            kw["quadrature"] = W[a["quad_from"]["ref"]].quadrature
+            io = None
+        if k == "facet-named":
+            nm = a["named"]
+            fs = m.boundaries[nm["name"]]
+            side = int(nm["side"])
+            if side == 1 and (m.f2t[1, np.asarray(fs)] < 0).any():
+                side = 0   # side 1 exists for interior facets only
+            return FacetBasis(m, e, mapping=g, intorder=io,
+                              facets=nm["name"] if nm["by"] == "name" else fs,
+                              side=side, **kw)
         if k == "cell":
             return CellBasis(m, e, mapping=g, intorder=io, **kw)
         if k == "cell-subset":
@@ -1246,6 +1308,93 @@ class EnforceOverwrite(Op):
         f = enforce if a["how"] == "enforce" else penalize
         A2, b2 = f(A, b, D=basis.get_dofs(), overwrite=True)
         return [A2, b2, A, b]
+
+
+@register
+class MkSystem(Op):
+    """A constrained system kept in the pool as the tuple the library
+    returned (condense with expand, or a multipoint constraint), to be handed
+    to solve() any number of times."""
+    name = "mk_system"
+    out = "lsys"
+    weight = 1.0
+
+    def gen(self, rng, S):
+        b = S.pick(rng, "basis", lambda x: x["kind"] == "cell"
+                   and not x.get("composite")
+                   and x["ekind"] in ("scalar", "vector"))
+        if b is None:
+            return None
+        A = S.pick(rng, "asm", lambda x: x["typ"] == "bilinear"
+                   and x["entry"] != "elemental" and x["basis"] == b
+                   and x["vbasis"] == b)
+        rhs = S.pick(rng, "asm", lambda x: x["typ"] == "linear"
+                     and x["entry"] != "elemental" and x["basis"] == b)
+        xv = S.pick(rng, "vec", lambda x: x["basis"] == b and not x["wrong"])
+        a = {"basis": ref(b), "how": rng.choice(["mpc", "mpc", "condense"]),
+             "shift": rng.choice([1.0, 2.5]), "seed": rng.randrange(1 << 30),
+             "g": rng.random() < 0.5, "T": rng.random() < 0.5}
+        if A is not None and rng.random() < 0.7:
+            a["A"] = ref(A)
+        if rhs is not None and rng.random() < 0.7:
+            a["b"] = ref(rhs)
+        if xv is not None and rng.random() < 0.5:
+            a["x"] = ref(xv)
+        return a
+
+    def meta(self, a, S):
+        return {"basis": a["basis"]["ref"], "how": a["how"]}
+
+    def apply(self, W, a):
+        from skfem import condense, BilinearForm
+        from skfem.utils import mpc
+        import scipy.sparse as sp
+        basis = W[a["basis"]["ref"]]
+        A = W[a["A"]["ref"]] if "A" in a else \
+            BilinearForm(R.g_stiff).assemble(basis)
+        b = W[a["b"]["ref"]] if "b" in a else np.ones(A.shape[0])
+        K = ((A + A.T.conj()) * 0.5 + a["shift"] * sp.eye(A.shape[0])).tocsr()
+        if np.iscomplexobj(K.data) and not np.iscomplexobj(b):
+            b = b.astype(K.dtype)
+        if a["how"] == "condense":
+            kw = {"x": W[a["x"]["ref"]]} if "x" in a else {}
+            return list(condense(K, b, D=basis.get_dofs(), **kw))
+        n = K.shape[0]
+        r = random.Random(a["seed"])
+        k = max(1, min(n // 3, 4))
+        pick = r.sample(range(n), 2 * k)
+        Sd = np.array(sorted(pick[:k]), dtype=np.int32)
+        Md = np.array(sorted(pick[k:]), dtype=np.int32)
+        kw = {}
+        if a["T"]:
+            kw["T"] = sp.diags(np.linspace(0.5, 1.5, k)).tocsr()
+        if a["g"]:
+            kw["g"] = np.linspace(0.1, 0.2, k)
+        return list(mpc(K, b, S=Sd, M=Md, **kw))
+
+
+@register
+class SolveSystem(Op):
+    name = "solve_system"
+    weight = 2.0
+
+    def gen(self, rng, S):
+        y = S.pick(rng, "lsys")
+        if y is None:
+            return None
+        a = {"sys": ref(y), "kw": {}}
+        s = S.pick(rng, "solver", lambda x: x["kind"] in (
+            "direct", "pcg", "krylov-gmres", "cg-py"))
+        if s is not None and rng.random() < 0.6:
+            a["solver"] = ref(s)
+        return a
+
+    def apply(self, W, a):
+        from skfem import solve
+        kw = dict(a["kw"])
+        if "solver" in a:
+            kw["solver"] = W[a["solver"]["ref"]]
+        return solve(*W[a["sys"]["ref"]], **kw)
 
 
 @register
